@@ -1,12 +1,12 @@
 CONSTANTS
-  KINDS = {"cfb", "cfb8", "ofbblk"}
+  KINDS = {"ofbblk"}
   DIRS = {"enc", "dec"}
   BS = 2
   W = 2
   MAXU = 3
-  OBJS = {"a", "s"}
-  PROP = "C03"
+  OBJS = {"a", "u"}
+  PROP = "C14"
   PERT = {1}
 SPECIFICATION Spec
-INVARIANTS C03 C07 C09 NoJunk EmitReplay
+INVARIANTS C14 C03 C01 NoJunk EmitReplay
 CHECK_DEADLOCK FALSE
